@@ -168,12 +168,9 @@ def pairOf? : Sexp → Option (S × S)
 
 def ieOf? : Sexp → Option (Option IE)
   | .atom "none" => some none
-  | .list [.atom "ie", idx, cols] => do
-    let index ← listOf? Sexp.asAtom? idx
-    let cols ← listOf? (fun (c : Sexp) => match c with
-      | Sexp.list [Sexp.atom name, cells] => do some (name, ← listOf? jsonOf? cells)
-      | _ => none) cols
-    some (some { index, cols })
+  | .list [.atom "ie", idx, cols, rows] => do
+    some (some { index := ← listOf? jsonOf? idx, columns := ← listOf? Sexp.asAtom? cols,
+                 data := ← listOf? (listOf? jsonOf?) rows })
   | _ => none
 
 def modelOf? : Sexp → Option (Model S S)
